@@ -1,6 +1,7 @@
 import MicroHttp.Props.C07
 import MicroHttp.Props.C08System
 import MicroHttp.Props.C10History
+import MicroHttp.Props.Tables
 #print axioms MicroHttp.C07.yielded_tokens
 #print axioms MicroHttp.C07.outstanding_token_identifies
 #print axioms MicroHttp.C07.respond_routes
@@ -13,3 +14,4 @@ import MicroHttp.Props.C10History
 #print axioms MicroHttp.C08.queue_is_answers_and_interims
 #print axioms MicroHttp.C10.history_inv
 #print axioms MicroHttp.C10.reachable
+#print axioms MicroHttp.Tables.is_done_pred
